@@ -14,7 +14,7 @@ func init() {
 	register(&Property{
 		ID:      "C17",
 		NeedSSA: true,
-		Decided: "Structural necessary conditions for history independence: (reset) for the writer, row-group writer, column writers, buffers, column buffers, dictionaries and indexers, every access path that an operation writes on a reused (non-fresh) instance is written by a function reachable from the instance's reset, or is exempt for a recorded reason; a whole-struct overwrite by an operation counts as a write of every field it destroys; (own) storage that reset clears in place (footer structs of finished row groups) is never shared with live state: values published into it are freshly allocated or moved from the same path, and shallow struct copies are followed by fresh re-assignment; (scratch) accumulate-then-flush scratch slices that no reset clears are truncated on every exit of the function that grows them; (nondet) no function of the module outside a frozen allow-list calls time/rand/environment/CPU-count sources; (maps) every range over a map whose results can reach output is followed by a sort. (nested) state of an embedded specified type that an operation of the owner writes through a field path is re-established by the owner's reset reaching the inner reset through that path, or by the operation calling the inner reset itself; (own, cont.) after a shallow copy, re-assignments that append to what the field holds after the copy do not count as giving it storage of its own.",
+		Decided: "Structural necessary conditions for history independence: (reset) for the writer, row-group writer, column writers, buffers, column buffers, dictionaries and indexers, every access path that an operation writes on a reused (non-fresh) instance is written by a function reachable from the instance's reset, or is exempt for a recorded reason; a whole-struct overwrite by an operation counts as a write of every field it destroys; (own) storage that reset clears in place (footer structs of finished row groups) is never shared with live state: values published into it are freshly allocated or moved from the same path, and shallow struct copies are followed by fresh re-assignment; (scratch) accumulate-then-flush scratch slices that no reset clears are truncated on every exit of the function that grows them; (nondet) no function of the module outside a frozen allow-list calls time/rand/environment/CPU-count sources; (maps) every range over a map whose results can reach output is followed by a sort. (nested) state of an embedded specified type that an operation of the owner writes through a field path is re-established by the owner's reset reaching the inner reset through that path, or by the operation calling the inner reset itself; (own, cont.) after a shallow copy, re-assignments that append to what the field holds after the copy do not count as giving it storage of its own; (regrow) the buffers that later code accumulates into instead of overwriting — the null bitmap handed to the null-index kernels, the bloom filter bits handed to the split-block encoder (both resolved by that role), and every parameter a function both regrows and ORs into — are zeroed (clear(), a zeroing loop, or a module function doing either) after every `x = x[:n]` that regrows them inside retained capacity, on every path to a return.",
 		NotDecided: "byte equality itself; equality of the portable and accelerated kernels (assembly is not analysed); values carried in memory that is retained on purpose (capacity of truncated slices); state reachable only through interface-typed fields is checked per concrete type, not per instance.",
 		Assumptions: []string{
 			"effects are computed over static calls; dynamic calls (interface methods, function values) are not followed, concrete implementations are specified separately",
@@ -200,8 +200,79 @@ func runC17(c *Ctx) {
 	runScratchRule(c, "C17.scratch", "Buffer", "colbuf")
 	c.Min("C17.scratch", 3)
 
+	c17Regrow(c)
 	c17Nondet(c)
 	c17Maps(c)
+}
+
+// c17Regrow resolves the accumulate-into buffers by their role and applies
+// T-REGROW to them and to every function that ORs into a parameter it regrows.
+func c17Regrow(c *Ctx) {
+	rule := "C17.regrow"
+	p := c.P
+	fields := map[*types.Var]string{}
+	bloomCol := p.LookupType("BloomFilterColumn")
+	for _, fn := range p.ModuleSSAFuncs() {
+		if fn.Origin() != nil || fn.Blocks == nil || fnPkgPath(fn) != modPath {
+			continue
+		}
+		allCalls(fn, false, func(_ *ssa.Function, call ssa.CallInstruction) {
+			cc := call.Common()
+			// the null bitmap: first argument of a call through a function value
+			// of the null-index kernels' shape (bits []uint64, rows sparse.Array)
+			if !cc.IsInvoke() && cc.StaticCallee() == nil {
+				if _, isB := cc.Value.(*ssa.Builtin); !isB {
+					sig := cc.Signature()
+					if sig.Params().Len() == 2 && sig.Results().Len() == 0 {
+						if sl, ok := sig.Params().At(0).Type().Underlying().(*types.Slice); ok {
+							if bt, ok := sl.Elem().Underlying().(*types.Basic); ok && bt.Kind() == types.Uint64 {
+								if n := namedOf(sig.Params().At(1).Type()); n != nil && n.Obj().Name() == "Array" && strings.HasSuffix(n.Obj().Pkg().Path(), "/sparse") {
+									for _, o := range Origins(cc.Args[0], OriginOpts{}) {
+										if o.Kind == OrgField {
+											fields[o.Field] = "the null-index kernels OR one bit per non-null row into it"
+										}
+									}
+								}
+							}
+						}
+					}
+				}
+			}
+			// the bloom filter bits: the []byte handed to an encoder together with
+			// the encoding of the column's BloomFilterColumn
+			if bloomCol == nil {
+				return
+			}
+			usesBloomEncoding := false
+			for _, a := range cc.Args {
+				for _, o := range Origins(a, OriginOpts{}) {
+					if o.Kind == OrgCall && o.Call.Common().IsInvoke() && o.Call.Common().Method.Name() == "Encoding" {
+						if n := namedOf(o.Call.Common().Value.Type()); n != nil && n.Obj() == bloomCol.Obj() {
+							usesBloomEncoding = true
+						}
+					}
+				}
+			}
+			if !usesBloomEncoding {
+				return
+			}
+			for _, a := range cc.Args {
+				if sl, ok := a.Type().Underlying().(*types.Slice); ok {
+					if bt, ok := sl.Elem().Underlying().(*types.Basic); ok && bt.Kind() == types.Byte {
+						for _, o := range Origins(a, OriginOpts{}) {
+							if o.Kind == OrgField {
+								fields[o.Field] = "the split-block bloom filter encoder ORs the bits of every inserted value into it"
+							}
+						}
+					}
+				}
+			}
+		})
+	}
+	c.Anchor(rule, "the null bitmap and the bloom filter bits (accumulate-into fields resolved by role)", len(fields) >= 2)
+	c.Stats[rule+".accumulate_fields"] = len(fields)
+	runRegrowRule(c, rule, fields, func(fn *ssa.Function) bool { return inModule(fn) })
+	c.Min(rule, 3)
 }
 
 // ---------------------------------------------------------------------------
